@@ -28,6 +28,9 @@ CONSTANTS N,          \* threads 1..N
           TaWoke,     \* mu_wait.c: a thread spinning in mu_try_acquire_after_timeout_or_cancel that finds it has been woken stops honouring
                       \* MU_LONG_WAIT (TRUE, after the fix), or keeps honouring it: as designated waker it then spins for ever while the long
                       \* waiter sleeps (FALSE: defect 6.9)
+          MwFix,      \* mu_wait.c: when nsync_mu_wait_with_deadline releases the mutex it reads the designated-waker bit from the word it releases
+                      \* (TRUE, after the fix) or trusts what it saw when it queued itself (FALSE: defect 6.10, a reader-mode waiter releases
+                      \* the last read lock without waking anybody)
           GenFix,     \* cv.c wake_waiters transfers to the mutex queue only waiters that wait with that nsync_mu itself (TRUE, after the fix) or
                       \* every waiter struct behind the first one, including generic-lock waiters (cv_mu = NULL), which re-acquire through
                       \* their own lock routine and never clear MU_DESIG_WAKER (FALSE: defect 6.8)
@@ -382,7 +385,7 @@ Xfer(tw, wl, cm, fca) ==
              if ((old & SPIN) # 0) { goto mw_4_d; };
    mw_5_cas: if (word = old) {
                word := Clr(((old | SPIN) | WAITING) | (IF c # 0 THEN CONDB ELSE 0), ALLF);
-               hadw := (old & (DESIG + WAITING)) = WAITING;
+               hadw := IF MwFix THEN (old & WAITING) # 0 ELSE (old & (DESIG + WAITING)) = WAITING;
                if (first) { sc := Merge(sc, wc, Last(queue), W(self)); queue := Append(queue, W(self)); nq := IF nq < N THEN nq + 1 ELSE nq; }
                else { sc := Merge(sc, wc, W(self), First(queue)); queue := <<W(self)>> \o queue; };
                first := FALSE;
@@ -391,7 +394,7 @@ Xfer(tw, wl, cm, fca) ==
              } else { goto mw_4_d; };
    mw_4_d:   goto mw_4_ld;
    mw_6_ld:  old := word;                                                        \* mu_wait.c:218
-             ata := IF AnyLock(old - Add(lt)) = 0 /\ hadw THEN 0 ELSE Add(lt);
+             ata := IF AnyLock(old - Add(lt)) = 0 /\ hadw /\ (~MwFix \/ (old & DESIG) = 0) THEN 0 ELSE Add(lt);
    mw_7_cas: if (word = old) {                                                   \* mu_wait.c:223 ATM_CAS_REL
                word := Clr(old - ata, SPIN);
                so := 0; havel := FALSE;
@@ -641,29 +644,29 @@ Xfer(tw, wl, cm, fca) ==
   }
 } *)
 \* BEGIN TRANSLATION
-\* Procedure variable old of procedure lock_slow at line 189 col 15 changed to old_
-\* Procedure variable old of procedure unlock_slow at line 228 col 15 changed to old_u
-\* Procedure variable rmq of procedure unlock_slow at line 228 col 101 changed to rmq_
-\* Procedure variable old of procedure mu_lock at line 289 col 15 changed to old_m
-\* Procedure variable old of procedure mu_trylock at line 302 col 15 changed to old_mu
-\* Procedure variable old of procedure mu_unlock at line 313 col 15 changed to old_mu_
-\* Procedure variable old of procedure try_acquire at line 343 col 15 changed to old_t
-\* Procedure variable old of procedure mu_wait at line 374 col 15 changed to old_mu_w
-\* Procedure variable lt of procedure mu_wait at line 374 col 24 changed to lt_
-\* Procedure variable out of procedure mu_wait at line 374 col 46 changed to out_
-\* Procedure variable rc of procedure mu_wait at line 374 col 55 changed to rc_
-\* Procedure variable so of procedure mu_wait at line 374 col 86 changed to so_
-\* Procedure variable old of procedure cv_wake at line 445 col 15 changed to old_c
-\* Procedure variable old of procedure cv_wait at line 477 col 15 changed to old_cv
-\* Procedure variable lt of procedure cv_wait at line 477 col 24 changed to lt_c
-\* Procedure variable rc of procedure cv_wait at line 477 col 32 changed to rc_c
-\* Parameter lt of procedure lock_slow at line 188 col 23 changed to lt_l
-\* Parameter lt of procedure unlock_slow at line 227 col 25 changed to lt_u
-\* Parameter lt of procedure mu_lock at line 288 col 21 changed to lt_m
-\* Parameter lt of procedure mu_trylock at line 301 col 24 changed to lt_mu
-\* Parameter lt of procedure mu_unlock at line 312 col 23 changed to lt_mu_
-\* Parameter dl of procedure mu_wait at line 373 col 24 changed to dl_
-\* Parameter cn of procedure mu_wait at line 373 col 28 changed to cn_
+\* Procedure variable old of procedure lock_slow at line 192 col 15 changed to old_
+\* Procedure variable old of procedure unlock_slow at line 231 col 15 changed to old_u
+\* Procedure variable rmq of procedure unlock_slow at line 231 col 101 changed to rmq_
+\* Procedure variable old of procedure mu_lock at line 292 col 15 changed to old_m
+\* Procedure variable old of procedure mu_trylock at line 305 col 15 changed to old_mu
+\* Procedure variable old of procedure mu_unlock at line 316 col 15 changed to old_mu_
+\* Procedure variable old of procedure try_acquire at line 346 col 15 changed to old_t
+\* Procedure variable old of procedure mu_wait at line 377 col 15 changed to old_mu_w
+\* Procedure variable lt of procedure mu_wait at line 377 col 24 changed to lt_
+\* Procedure variable out of procedure mu_wait at line 377 col 46 changed to out_
+\* Procedure variable rc of procedure mu_wait at line 377 col 55 changed to rc_
+\* Procedure variable so of procedure mu_wait at line 377 col 86 changed to so_
+\* Procedure variable old of procedure cv_wake at line 448 col 15 changed to old_c
+\* Procedure variable old of procedure cv_wait at line 480 col 15 changed to old_cv
+\* Procedure variable lt of procedure cv_wait at line 480 col 24 changed to lt_c
+\* Procedure variable rc of procedure cv_wait at line 480 col 32 changed to rc_c
+\* Parameter lt of procedure lock_slow at line 191 col 23 changed to lt_l
+\* Parameter lt of procedure unlock_slow at line 230 col 25 changed to lt_u
+\* Parameter lt of procedure mu_lock at line 291 col 21 changed to lt_m
+\* Parameter lt of procedure mu_trylock at line 304 col 24 changed to lt_mu
+\* Parameter lt of procedure mu_unlock at line 315 col 23 changed to lt_mu_
+\* Parameter dl of procedure mu_wait at line 376 col 24 changed to dl_
+\* Parameter cn of procedure mu_wait at line 376 col 28 changed to cn_
 CONSTANT defaultInitValue
 VARIABLES pc, word, queue, cvword, cvq, waiting, rmc, cvmu, wl, wc, sc, nww, 
           nwsem, nww2, nreg2, sem, data, now, note, nreg, held, ret, sres, 
@@ -1207,7 +1210,7 @@ us_rs_cas(self) == /\ pc[self] = "us_rs_cas"
 us_scan_l(self) == /\ pc[self] = "us_scan_l"
                    /\ LET r == Scan(nwl[self], 1, <<>>, wty[self], sor[self], sc, wc, wl, data, tc[self]) IN
                         /\ Assert(tc[self] => ((word & WLOCK) # 0 /\ \A u \in Threads : held[u] = 0), 
-                                  "Failure of assertion at line 259, column 16.")
+                                  "Failure of assertion at line 262, column 16.")
                         /\ nwl' = [nwl EXCEPT ![self] = r.l]
                         /\ rmq_' = [rmq_ EXCEPT ![self] = r.wake]
                         /\ wake' = [wake EXCEPT ![self] = wake[self] \o r.wake]
@@ -2323,7 +2326,7 @@ mw_4_ld(self) == /\ pc[self] = "mw_4_ld"
 mw_5_cas(self) == /\ pc[self] = "mw_5_cas"
                   /\ IF word = old_mu_w[self]
                         THEN /\ word' = Clr(((old_mu_w[self] | SPIN) | WAITING) | (IF c[self] # 0 THEN CONDB ELSE 0), ALLF)
-                             /\ hadw' = [hadw EXCEPT ![self] = (old_mu_w[self] & (DESIG + WAITING)) = WAITING]
+                             /\ hadw' = [hadw EXCEPT ![self] = IF MwFix THEN (old_mu_w[self] & WAITING) # 0 ELSE (old_mu_w[self] & (DESIG + WAITING)) = WAITING]
                              /\ IF first[self]
                                    THEN /\ sc' = Merge(sc, wc, Last(queue), W(self))
                                         /\ queue' = Append(queue, W(self))
@@ -2371,7 +2374,7 @@ mw_4_d(self) == /\ pc[self] = "mw_4_d"
 
 mw_6_ld(self) == /\ pc[self] = "mw_6_ld"
                  /\ old_mu_w' = [old_mu_w EXCEPT ![self] = word]
-                 /\ ata' = [ata EXCEPT ![self] = IF AnyLock(old_mu_w'[self] - Add(lt_[self])) = 0 /\ hadw[self] THEN 0 ELSE Add(lt_[self])]
+                 /\ ata' = [ata EXCEPT ![self] = IF AnyLock(old_mu_w'[self] - Add(lt_[self])) = 0 /\ hadw[self] /\ (~MwFix \/ (old_mu_w'[self] & DESIG) = 0) THEN 0 ELSE Add(lt_[self])]
                  /\ pc' = [pc EXCEPT ![self] = "mw_7_cas"]
                  /\ UNCHANGED << word, queue, cvword, cvq, waiting, rmc, cvmu, 
                                  wl, wc, sc, nww, nwsem, nww2, nreg2, sem, 
